@@ -342,6 +342,9 @@ impl Contour {
                     offs.clear();
                 }
                 PointType::QCurve => {
+                    if offs.is_empty() {
+                        path.line_to(kurbo_point);
+                    }
                     while let Some(pt) = offs.pop_front() {
                         if let Some(next) = offs.front() {
                             let implied_point = pt.midpoint(*next);
